@@ -30,20 +30,33 @@ class Session:
         self.kind, self.d, self.name, self.km, self.tk, self.rng = kind, d, name, km, tk, rng
         self.pool = tk.pool
         self.root: Any = None
+        # kinds "mc-h5" / "mc-ih5" / "mc-ih5mf": the same drivers seen through a MetadorContainer (C09)
+        self.wrapped = kind.startswith("mc-")
+        self.kind = kind = kind[3:] if self.wrapped else kind
         self.cls = {"ih5": IH5Record, "ih5mf": IH5MFRecord}.get(kind)
         self.last_raw = None
+        self._raw: Any = None
+
+    # the object user operations go to (self.root) and the driver object boundaries go to (self._raw)
+    def _set(self, raw):
+        self._raw = raw
+        if self.wrapped:
+            from metador_core.container import MetadorContainer
+            self.root = MetadorContainer(raw)
+        else:
+            self.root = raw
 
     # ---- lifecycle
     def create(self):
         if self.kind == "h5":
-            self.root = h5py.File(self.d / f"{self.name}.h5", "w")
+            self._set(h5py.File(self.d / f"{self.name}.h5", "w"))
         else:
-            self.root = self.cls(self.d / self.name, "w")
+            self._set(self.cls(self.d / self.name, "w"))
 
     def close(self):
         try:
-            if self.root is not None:
-                self.root.close()
+            if self._raw is not None:
+                self._raw.close()
         except Exception:
             pass
 
@@ -55,34 +68,40 @@ class Session:
         extra: Dict[str, Any] = {}
         if self.kind == "h5":
             if op == "reopen":
-                self.root.close()
-                self.root = h5py.File(self.d / f"{self.name}.h5", "r+")
+                self._raw.close()
+                self._set(h5py.File(self.d / f"{self.name}.h5", "r+"))
             elif op in ("commit", "flush"):
-                self.root.flush()
+                self._raw.flush()
             return extra
         if op == "commit":
-            self.root.commit_patch()
+            self._raw.commit_patch()
         elif op == "create_patch":
-            self.root.create_patch()
+            self._raw.create_patch()
         elif op == "discard":
-            self.root.discard_patch()
+            self._raw.discard_patch()
+            if self.wrapped:
+                self._set(self._raw)     # the container's bookkeeping is read from the record again
         elif op == "reopen":
-            self.root.close()
+            self._raw.close()
             fs = self.files()
             extra["cdisk"] = h5lib.disk_digests(self.d, self.name + ".")
-            # the closed record as bytes on disk, interpreted as PATCH_THEORY.md documents
-            extra["raw"] = [h5lib.raw_container(f, self.km, self.tk) for f in self._chain_order(fs)]
-            extra["hasraw"] = True
+            if not self.wrapped:
+                # the closed record as bytes on disk, interpreted as PATCH_THEORY.md documents
+                extra["raw"] = [h5lib.raw_container(f, self.km, self.tk) for f in self._chain_order(fs)]
+                extra["hasraw"] = True
             mode = e.get("mode", "r")
+            if self.wrapped and mode == "r":
+                mode = "r+"     # a container over a read-only record is a different object of study (C15)
             if e.get("bylist"):
                 fl = list(fs)
                 self.rng.shuffle(fl)
-                self.root = self.cls(fl, mode)
+                raw = self.cls(fl, mode)
             else:
-                self.root = self.cls(self.d / self.name, mode)
+                raw = self.cls(self.d / self.name, mode)
             if mode == "r":
-                self.root.close()
-                self.root = self.cls(self.d / self.name, "r+")
+                raw.close()
+                raw = self.cls(self.d / self.name, "r+")
+            self._set(raw)
         else:
             raise ValueError(op)
         return extra
